@@ -14,7 +14,7 @@ Definition dot : N := 46.
 (* xtolower(): the per-byte map regenerated from the code on every run *)
 Definition lower (c : N) : N := if c <? 256 then tbl_get c xtolower_tbl c else c.
 
-(* Tolower(char *) *)
+(* Tolower(): lower-cases a C string in place *)
 Definition lower_str (s : bytes) : bytes := map lower s.
 
 (* while ('.' == *h) ++h; *)
